@@ -185,6 +185,7 @@ func (p *PFCPIface) VerifSnapshot() map[string]interface{} {
 	p.mu.Unlock()
 
 	conns := map[string]interface{}{}
+	storedCtrs := map[int]bool{} // counter cells the stored PDRs of all sessions refer to (UP4)
 
 	if node != nil {
 		node.pConns.Range(func(key, value interface{}) bool {
@@ -196,6 +197,10 @@ func (p *PFCPIface) VerifSnapshot() map[string]interface{} {
 			seids := []string{}
 			for _, s := range pConn.store.GetAllSessions() {
 				seids = append(seids, fmt.Sprint(s.localSEID))
+
+				for _, r := range s.pdrs {
+					storedCtrs[int(r.ctrID)] = true
+				}
 			}
 
 			conns[fmt.Sprint(key)] = map[string]interface{}{"seids": seids, "nodeID": pConn.nodeID.remote}
@@ -210,8 +215,16 @@ func (p *PFCPIface) VerifSnapshot() map[string]interface{} {
 	// that serialises requests
 	if up4, ok := p.fp.(*UP4); ok && up4.IsConnected(nil) {
 		up4.sessionMu.Lock()
-		out["up4"] = up4.verifSnapshot()
+		u4 := up4.verifSnapshot()
 		up4.sessionMu.Unlock()
+
+		cells := []int{}
+		for c := range storedCtrs {
+			cells = append(cells, c)
+		}
+
+		u4["storedCtr"] = cells
+		out["up4"] = u4
 	}
 
 	return out
